@@ -65,8 +65,10 @@ pub struct NpoSel {
     pub recompose: bool,
     /// run p3-lookup's multiset debugger inside `prove` (panics with details on imbalance)
     pub debug_lookups: bool,
-    /// register the Poseidon2 permutation table for this configuration (D=4 circuits only)
+    /// register the Poseidon2 permutation table for this configuration
     pub poseidon2: Option<p3_circuit::ops::Poseidon2Config>,
+    /// register the Poseidon1 permutation table for this configuration
+    pub poseidon1: Option<p3_circuit::ops::Poseidon1Config>,
 }
 
 /// One WitnessChecks bus interaction decoded from a committed preprocessed trace.
@@ -168,7 +170,8 @@ fn decode_alu_sched(flat: &[u64], width: usize, k: usize, p: u64, d: u64, out: &
     }
 }
 
-/// Poseidon2 table support (only the degree-4 circuit fields have it here).
+/// Permutation-table support per field configuration (the prover API has tables for the
+/// circuit degrees 2, 4 and 5 only).
 pub trait PosSupport<SC: StarkGenericConfig + 'static, const D: usize> {
     #[allow(clippy::type_complexity)]
     fn poseidon2_parts(
@@ -177,32 +180,50 @@ pub trait PosSupport<SC: StarkGenericConfig + 'static, const D: usize> {
         None
     }
     fn register_poseidon2(_prover: &mut BatchStarkProver<SC>, _cfg: p3_circuit::ops::Poseidon2Config) {}
+    #[allow(clippy::type_complexity)]
+    fn poseidon1_parts(
+        _cfg: p3_circuit::ops::Poseidon1Config,
+    ) -> Option<(Box<dyn NpoPreprocessor<Val<SC>>>, Vec<Box<dyn NpoAirBuilder<SC, D>>>)> {
+        None
+    }
+    fn register_poseidon1(_prover: &mut BatchStarkProver<SC>, _cfg: p3_circuit::ops::Poseidon1Config) {}
 }
 
-macro_rules! impl_pos_d4 {
-    ($ty:ty, $sc:ty) => {
-        impl PosSupport<$sc, 4> for $ty {
+macro_rules! impl_pos {
+    ($ty:ty, $sc:ty, $d:literal, $p2b:ident, $p1b:ident) => {
+        impl PosSupport<$sc, $d> for $ty {
             fn poseidon2_parts(
                 _cfg: p3_circuit::ops::Poseidon2Config,
-            ) -> Option<(Box<dyn NpoPreprocessor<Val<$sc>>>, Vec<Box<dyn NpoAirBuilder<$sc, 4>>>)> {
+            ) -> Option<(Box<dyn NpoPreprocessor<Val<$sc>>>, Vec<Box<dyn NpoAirBuilder<$sc, $d>>>)> {
                 Some((
                     p3_circuit_prover::batch_stark_prover::poseidon2_preprocessor::<Val<$sc>>(),
-                    p3_circuit_prover::batch_stark_prover::poseidon2_air_builders::<$sc, 4>(),
+                    p3_circuit_prover::batch_stark_prover::$p2b::<$sc>(),
                 ))
             }
             fn register_poseidon2(prover: &mut BatchStarkProver<$sc>, cfg: p3_circuit::ops::Poseidon2Config) {
-                prover.register_poseidon2_table::<4>(cfg);
+                prover.register_poseidon2_table::<$d>(cfg);
+            }
+            fn poseidon1_parts(
+                _cfg: p3_circuit::ops::Poseidon1Config,
+            ) -> Option<(Box<dyn NpoPreprocessor<Val<$sc>>>, Vec<Box<dyn NpoAirBuilder<$sc, $d>>>)> {
+                Some((
+                    p3_circuit_prover::batch_stark_prover::poseidon1_preprocessor::<Val<$sc>>(),
+                    p3_circuit_prover::batch_stark_prover::$p1b::<$sc>(),
+                ))
+            }
+            fn register_poseidon1(prover: &mut BatchStarkProver<$sc>, cfg: p3_circuit::ops::Poseidon1Config) {
+                prover.register_poseidon1_table::<$d>(cfg);
             }
         }
     };
 }
-impl_pos_d4!(Bb4, BabyBearConfig);
-impl_pos_d4!(Kb4, KoalaBearConfig);
+impl_pos!(Bb4, BabyBearConfig, 4, poseidon2_air_builders_d4, poseidon1_air_builders_d4);
+impl_pos!(Kb4, KoalaBearConfig, 4, poseidon2_air_builders_d4, poseidon1_air_builders_d4);
+impl_pos!(Kb5, KoalaBearConfig, 5, poseidon2_air_builders_d5, poseidon1_air_builders_d5);
+impl_pos!(Gl2, GoldilocksConfig, 2, poseidon2_air_builders_d2, poseidon1_air_builders_d2);
 impl PosSupport<BabyBearConfig, 1> for Bb1 {}
 impl PosSupport<KoalaBearConfig, 1> for Kb1 {}
-impl PosSupport<KoalaBearConfig, 5> for Kb5 {}
 impl PosSupport<GoldilocksConfig, 1> for Gl1 {}
-impl PosSupport<GoldilocksConfig, 2> for Gl2 {}
 
 pub trait Pv: Fc {
     type SC: StarkGenericConfig + 'static + Send + Sync;
@@ -270,6 +291,15 @@ macro_rules! impl_pv {
                             air_builders.extend(builders);
                         }
                         None => return Err(PvErr::Setup("Poseidon2 table not supported for this field configuration".into())),
+                    }
+                }
+                if let Some(pc) = npo.poseidon1 {
+                    match <Self as PosSupport<$sc, $d>>::poseidon1_parts(pc) {
+                        Some((prep, builders)) => {
+                            npo_prep.push(prep);
+                            air_builders.extend(builders);
+                        }
+                        None => return Err(PvErr::Setup("Poseidon1 table not supported for this field configuration".into())),
                     }
                 }
                 if npo.recompose && $d > 1 {
@@ -369,6 +399,15 @@ macro_rules! impl_pv {
                         None => return Err(PvErr::Setup("Poseidon2 table not supported for this field configuration".into())),
                     }
                 }
+                if let Some(pc) = npo.poseidon1 {
+                    match <Self as PosSupport<$sc, $d>>::poseidon1_parts(pc) {
+                        Some((prep, builders)) => {
+                            npo_prep.push(prep);
+                            air_builders.extend(builders);
+                        }
+                        None => return Err(PvErr::Setup("Poseidon1 table not supported for this field configuration".into())),
+                    }
+                }
                 if npo.recompose && $d > 1 {
                     npo_prep.push(recompose_preprocessor::<Val<$sc>>(true));
                     air_builders.extend(recompose_air_builders::<$sc, $d>(1, true));
@@ -397,6 +436,9 @@ macro_rules! impl_pv {
                 let mut prover = BatchStarkProver::new(cfg).with_table_packing(packing.clone());
                 if let Some(pc) = npo.poseidon2 {
                     <Self as PosSupport<$sc, $d>>::register_poseidon2(&mut prover, pc);
+                }
+                if let Some(pc) = npo.poseidon1 {
+                    <Self as PosSupport<$sc, $d>>::register_poseidon1(&mut prover, pc);
                 }
                 if npo.recompose && $d > 1 {
                     prover.register_recompose_table::<$d>(true);
